@@ -1,28 +1,57 @@
 (* C18 - every DelayedObjects future is fulfilled exactly once and never hangs.
    Statements only; every proof is `exact <lemma>` into Proofs/DelayedObjectsProofs.v.
-   All theorems quantify over the number of future slots per client, any number of threads with
-   any programs over {getFuture, setDelayedValue (copy / move), fulfillAllPromises, isRecognized,
-   isCompleted, finishedWithValue} x {int keys, string keys} plus the client-side observations
-   {future ready?, future.get()}, and every schedule.
+   All theorems quantify over the number ns of future slots per client, the throw plan pl (which copies
+   of X throw), any number of threads with any programs over {getFuture, setDelayedValue (const X& / X&&),
+   fulfillAllPromises, isRecognized, isCompleted, finishedWithValue} x {int keys, string keys} plus the
+   client-side observations {future ready?, future.get()}, and every schedule.
 
    Vocabulary: a promise cell  Cell kind key st  lives at index q of  heap (ct (gl s));  st is
-   Unset | SetV v | Broken;  (kind, key) is what getFuture was called with.  pend / used are the
-   four maps;  P_lock o = "method o waits for promiseLock",  P_unlock rv flt = "method body done,
-   owns promiseLock, will return rv".  The body of a method runs in its lock step. *)
+   Unset | SetV v | Broken;  (kind, key) is what getFuture was called with.  pend / used are the four maps.
+   pcs: P_lock o = waits for promiseLock;  P_call o = setDelayedValue(const X&) about to copy (owns the lock);
+   P_ful v k key q r d c0 = fulfillAllPromises about to copy for promise q (owns the lock; c0 = container
+   when it took the lock);  P_unlock out = body over, owns the lock, will end with out = ORet rv | OExn | OFault.
+   torn (gl s) (ghost) = some fulfillAllPromises was ended by a throwing copy after it had already satisfied
+   a promise;  calm s = no fulfillAllPromises is in progress.
+
+   PROVISO.  With copies that can throw the class has a defect (do_never_twice_refuted): a copy that
+   throws in the middle of fulfillAllPromises leaves moved-from promises in the pending maps.  Everything
+   that speaks about the container's consistency is therefore stated for torn = false, which holds for
+   ever when no copy throws (do_nothrow_never_torn), and is not affected by throwing copies in
+   setDelayedValue (do_set_exn_keeps_pending) or by a fulfillAllPromises whose first copy throws. *)
 From Coq Require Import List Arith ZArith Lia Bool.
 Import ListNotations.
 From GV Require Import Sched Events DelayedObjectsModel DelayedObjectsProofs.
 Local Open Scope Z_scope.
 
 (* ---------- do_never_twice ---------- *)
-(* No set_value ever hits a satisfied promise (no std::future_error), and: pending maps hold exactly the
-   Unset promises, used maps only satisfied ones, keys are unique, a promise is Broken only by a later
-   request of the same key (record CInv). *)
-Theorem do_never_twice : forall ns progs s, R ns progs s -> faulted (gl s) = false /\ CInv (ct (gl s)).
+(* The unrestricted statement
+     forall ns pl progs s, R ns pl progs s -> faulted (gl s) = false
+   is FALSE (next theorem).  Proved: as long as no fulfillAllPromises was torn, no set_value ever hits a
+   promise that cannot be set (no std::future_error), and outside a running fulfillAllPromises: pending maps
+   hold exactly the Unset promises, used maps only satisfied ones, keys are unique, a promise is Broken
+   only by a later request of the same key (record CInv). *)
+Theorem do_never_twice : forall ns pl progs s, R ns pl progs s -> torn (gl s) = false ->
+  faulted (gl s) = false /\ (calm s -> CInv (ct (gl s))).
 Proof. exact never_twice. Qed.
 
-Theorem do_no_fault_event : forall ns progs s t c l g' l' es,
-  R ns progs s -> nth_error (thr s) t = Some l -> tstep t c (gl s) l = Some (g', l', es) -> ~ In fault_ev es.
+(* witness: getFuture(1); getFuture(2); fulfillAllPromises(5000) whose 2nd copy throws; setDelayedValue(1, 77):
+   the last call ends with std::future_error; key 1 is in the pending AND in the used map; the future of
+   key 2 is not ready; and ~DelayedObjects would throw from set_value (= std::terminate) *)
+Theorem do_never_twice_refuted :
+  R 2 [1] bad_progs bad_state /\ torn (gl bad_state) = true /\ faulted (gl bad_state) = true /\
+  all_fin glob loc fin bad_state = true /\ mtx (gl bad_state) = None /\
+  destroy (ct (gl bad_state)) = None /\
+  ahas 1 (pend (ct (gl bad_state)) false) = true /\ ahas 1 (used (ct (gl bad_state)) false) = true /\
+  fut_get (heap (ct (gl bad_state))) (Some 0%nat) = 5000 /\ fut_get (heap (ct (gl bad_state))) (Some 1%nat) = C_NOTREADY.
+Proof. exact never_twice_refuted. Qed.
+
+(* copies that never throw: the proviso holds for ever *)
+Theorem do_nothrow_never_torn : forall ns progs s, R ns [] progs s -> torn (gl s) = false.
+Proof. exact nothrow_never_torn. Qed.
+
+Theorem do_no_fault_event : forall ns pl progs s t c l g' l' es,
+  R ns pl progs s -> torn (gl s) = false -> nth_error (thr s) t = Some l ->
+  tstep t c (gl s) l = Some (g', l', es) -> ~ In fault_ev es.
 Proof. exact no_fault_event. Qed.
 
 (* a promise id is in at most one of the four maps, under one key *)
@@ -31,42 +60,87 @@ Theorem do_pid_one_map : forall c, CInv c -> forall q k1 key1 k2 key2,
   k1 = k2 /\ key1 = key2 /\ ~ (In (key1, q) (pend c k1) /\ In (key2, q) (used c k2)).
 Proof. exact pid_one_map. Qed.
 
+(* ---------- do_set_exn_keeps_pending ---------- *)
+(* a throwing copy in setDelayedValue(key, const X&) changes nothing: the container is the same, the key
+   is still pending with its promise Unset, no fault, not torn ... *)
+Theorem do_set_exn_keeps_pending : forall ns pl progs s t c l g' l' es o,
+  R ns pl progs s -> torn (gl s) = false -> nth_error (thr s) t = Some l -> at_ l = P_call o ->
+  throws (gl s) = true -> tstep t c (gl s) l = Some (g', l', es) ->
+  ct g' = ct (gl s) /\ at_ l' = P_unlock OExn /\ torn g' = false /\ faulted g' = false /\
+  exists k key v q, o = SetValue false k key v /\ afind key (pend (ct g') k) = Some q /\
+                    nth_error (heap (ct g')) q = Some (Cell k key Unset).
+Proof. exact set_exn_keeps_pending. Qed.
+(* ... and the call ends by releasing the mutex (events: K_UNLOCK, then K_CATCH for OExn / K_RET rv for ORet rv).
+   The promise can then still be satisfied by do_set_wins_*, do_fulfill_step, do_default_at_destruction. *)
+Theorem do_section_exit : forall t c g l g' l' es out, tstep t c g l = Some (g', l', es) -> at_ l = P_unlock out ->
+  es = unlock_evs out /\ at_ l' = Idle /\ ct g' = ct g /\ mtx g' = None /\ torn g' = torn g /\ faulted g' = faulted g.
+Proof. exact unlock_step. Qed.
+(* whenever a thread waits at the copy inside setDelayedValue, its key is pending and it owns the lock *)
+Theorem do_at_copy_pending : forall ns pl progs s t l o, R ns pl progs s -> torn (gl s) = false ->
+  nth_error (thr s) t = Some l -> at_ l = P_call o ->
+  exists k key v q, o = SetValue false k key v /\ afind key (pend (ct (gl s)) k) = Some q /\
+                    nth_error (heap (ct (gl s))) q = Some (Cell k key Unset) /\ mtx (gl s) = Some t.
+Proof. exact at_copy_pending. Qed.
+
 (* ---------- do_fulfilled_once: which value, and exactly once ---------- *)
-(* (1) the critical section of setDelayedValue(key, v) that finds the key pending satisfies that key's
-       promise - and no other - with v *)
-Theorem do_set_wins : forall ns progs s t c l g' l' es mv k key v q,
-  R ns progs s -> nth_error (thr s) t = Some l -> at_ l = P_lock (SetValue mv k key v) ->
+(* (1) setDelayedValue(key, v) that finds the key pending satisfies that key's promise - and no other -
+       with v: the X&& overload in its lock step, the const X& overload in the step of its copy *)
+Theorem do_set_wins_move : forall ns pl progs s t c l g' l' es k key v q,
+  R ns pl progs s -> torn (gl s) = false -> nth_error (thr s) t = Some l -> at_ l = P_lock (SetValue true k key v) ->
   tstep t c (gl s) l = Some (g', l', es) -> afind key (pend (ct (gl s)) k) = Some q ->
   nth_error (heap (ct (gl s))) q = Some (Cell k key Unset) /\
   nth_error (heap (ct g')) q = Some (Cell k key (SetV v)) /\
   (forall q', q' <> q -> nth_error (heap (ct g')) q' = nth_error (heap (ct (gl s))) q') /\
-  at_ l' = P_unlock 0 false.
-Proof. exact set_wins. Qed.
+  at_ l' = P_unlock (ORet 0).
+Proof. exact set_wins_move. Qed.
+Theorem do_set_wins_copy : forall ns pl progs s t c l g' l' es k key v q,
+  R ns pl progs s -> torn (gl s) = false -> nth_error (thr s) t = Some l -> at_ l = P_call (SetValue false k key v) ->
+  throws (gl s) = false ->
+  tstep t c (gl s) l = Some (g', l', es) -> afind key (pend (ct (gl s)) k) = Some q ->
+  nth_error (heap (ct (gl s))) q = Some (Cell k key Unset) /\
+  nth_error (heap (ct g')) q = Some (Cell k key (SetV v)) /\
+  (forall q', q' <> q -> nth_error (heap (ct g')) q' = nth_error (heap (ct (gl s))) q') /\
+  at_ l' = P_unlock (ORet 0).
+Proof. exact set_wins_copy. Qed.
 
-(* (2) fulfillAllPromises(v) satisfies every promise that is still Unset with v, leaves all others alone,
-       and empties the pending maps *)
-Theorem do_fulfill_all : forall ns progs s t c l g' l' es v,
-  R ns progs s -> nth_error (thr s) t = Some l -> at_ l = P_lock (FulfillAll v) ->
-  tstep t c (gl s) l = Some (g', l', es) ->
-  length (heap (ct g')) = length (heap (ct (gl s))) /\ (forall k, pend (ct g') k = []) /\
-  (forall q k key st, nth_error (heap (ct (gl s))) q = Some (Cell k key st) ->
-     nth_error (heap (ct g')) q = Some (Cell k key (settle v st))).
-Proof. exact fulfill_all. Qed.
+(* (2) fulfillAllPromises(v): every non-throwing copy satisfies the promise at the iterator with v, no other
+       promise becomes satisfied, no cell goes backwards ... *)
+Theorem do_fulfill_step : forall ns pl progs s t c l g' l' es v k key q r d c0,
+  R ns pl progs s -> torn (gl s) = false -> nth_error (thr s) t = Some l -> at_ l = P_ful v k key q r d c0 ->
+  throws (gl s) = false -> tstep t c (gl s) l = Some (g', l', es) ->
+  is_unset (heap (ct (gl s))) q = true /\ fut_get (heap (ct g')) (Some q) = v /\
+  hle (heap (ct (gl s))) (heap (ct g')) /\
+  (forall i k0 key0 w, i <> q -> nth_error (heap (ct g')) i = Some (Cell k0 key0 (SetV w)) ->
+     nth_error (heap (ct (gl s))) i = Some (Cell k0 key0 (SetV w))) /\
+  (is_ful (at_ l') = true \/ at_ l' = P_unlock (ORet 0)).
+Proof. exact fulfill_step. Qed.
+(* ... and when it gets through both loops the container is the sequential body applied to the container c0
+   it found: every promise Unset in c0 holds v, every other cell is as in c0, the pending maps are empty *)
+Theorem do_fulfill_completes : forall ns pl progs s t c l g' l' es v k key q r d c0,
+  R ns pl progs s -> torn (gl s) = false -> nth_error (thr s) t = Some l -> at_ l = P_ful v k key q r d c0 ->
+  tstep t c (gl s) l = Some (g', l', es) -> at_ l' = P_unlock (ORet 0) ->
+  CInv c0 /\ apply (FulfillAll v) c0 = (ct g', 0, false) /\ replay (hist (gl s)) cont0 = Some c0 /\
+  hist g' = hist (gl s) ++ [(t, FulfillAll v, ORet 0)].
+Proof. exact fulfill_completes. Qed.
+Theorem do_fulfill_all_seq : forall c v, CInv c ->
+  exists c', apply (FulfillAll v) c = (c', 0, false) /\ length (heap c') = length (heap c) /\
+    (forall k, pend c' k = []) /\
+    (forall q k key st, nth_error (heap c) q = Some (Cell k key st) ->
+       nth_error (heap c') q = Some (Cell k key (settle v st))).
+Proof. exact fulfill_all_seq. Qed.
 
-(* (3) ~DelayedObjects (from any reachable state) throws nothing, and gives X{} = 0 to whatever is still Unset *)
-Theorem do_default_at_destruction : forall ns progs s, R ns progs s ->
+(* (3) ~DelayedObjects throws nothing and gives X{} = 0 to whatever is still Unset *)
+Theorem do_default_at_destruction : forall ns pl progs s, R ns pl progs s -> torn (gl s) = false -> calm s ->
   exists h', destroy (ct (gl s)) = Some h' /\ length h' = length (heap (ct (gl s))) /\
     (forall q k key st, nth_error (heap (ct (gl s))) q = Some (Cell k key st) ->
        nth_error h' q = Some (Cell k key (settle 0 st))).
 Proof. exact destroyed. Qed.
 
-(* (4) do_stable: once a promise is satisfied (or broken) it stays exactly so in every later state *)
+(* (4) do_stable (no proviso): once a promise is satisfied (or broken) it stays exactly so in every later state *)
 Theorem do_stable : forall (s s' : sys glob loc) q k key st,
   reachable glob loc tstep s s' -> nth_error (heap (ct (gl s))) q = Some (Cell k key st) -> st <> Unset ->
   nth_error (heap (ct (gl s'))) q = Some (Cell k key st).
 Proof. exact stable. Qed.
-
-(* ... as seen by the client: a future that was ready stays ready and get() keeps returning the same *)
 Theorem do_stable_observed : forall (s s' : sys glob loc) p, reachable glob loc tstep s s' ->
   fut_ready (heap (ct (gl s))) (Some p) = 1 ->
   fut_ready (heap (ct (gl s'))) (Some p) = 1 /\
@@ -74,172 +148,196 @@ Theorem do_stable_observed : forall (s s' : sys glob loc) p, reachable glob loc 
 Proof. exact stable_get. Qed.
 
 (* (5) a key requested once: its promise is never broken, and after destruction it holds a value:
-       the one it already had (by (1), (2), (4): the first set that found it pending, else the
-       fulfil-all value), else 0 *)
-Theorem do_fulfilled_once : forall ns progs s h' q k key st,
-  R ns progs s -> destroy (ct (gl s)) = Some h' ->
+       the one it already had (by (1), (2), (4)), else 0 *)
+Theorem do_fulfilled_once : forall ns pl progs s h' q k key st,
+  R ns pl progs s -> torn (gl s) = false -> calm s -> destroy (ct (gl s)) = Some h' ->
   nth_error (heap (ct (gl s))) q = Some (Cell k key st) -> requested_once (heap (ct (gl s))) q k key ->
   st <> Broken /\ exists v, nth_error h' q = Some (Cell k key (SetV v)) /\ (st = SetV v \/ (st = Unset /\ v = 0)).
 Proof. exact fulfilled_once. Qed.
 
-(* (6) no value out of thin air: a satisfied promise holds a value passed to setDelayedValue for its own
-       key, or to fulfillAllPromises, by a critical section in the history *)
-Theorem do_value_provenance : forall ns progs s q k key v, R ns progs s ->
+(* (6) no value out of thin air: a satisfied promise holds a value some caller passed to setDelayedValue for
+       its own key, or to fulfillAllPromises *)
+Theorem do_value_provenance : forall ns pl progs s q k key v, R ns pl progs s -> torn (gl s) = false ->
   nth_error (heap (ct (gl s))) q = Some (Cell k key (SetV v)) ->
-  exists t rv, (exists mv, In (t, SetValue mv k key v, rv) (hist (gl s))) \/ In (t, FulfillAll v, rv) (hist (gl s)).
+  exists t, (exists mv, In (t, SetValue mv k key v) (began (gl s))) \/ In (t, FulfillAll v) (began (gl s)).
 Proof. exact provenance. Qed.
 
-(* every future held by a client refers to an existing promise (FutReady / FutGet never see "no state") *)
-Theorem do_futures_valid : forall ns progs s u l i p, R ns progs s ->
+Theorem do_futures_valid : forall ns pl progs s u l i p, R ns pl progs s ->
   nth_error (thr s) u = Some l -> nth_error (slots l) i = Some (Some p) ->
   exists k key st, nth_error (heap (ct (gl s))) p = Some (Cell k key st).
 Proof. exact slots_valid. Qed.
 
-(* re-requesting a pending key is the only way a promise gets broken (outside the property: "requested once") *)
-Theorem do_broken_only_by_rerequest : forall ns progs s q k key,
-  R ns progs s -> nth_error (heap (ct (gl s))) q = Some (Cell k key Broken) ->
+Theorem do_broken_only_by_rerequest : forall ns pl progs s q k key,
+  R ns pl progs s -> torn (gl s) = false -> calm s -> nth_error (heap (ct (gl s))) q = Some (Cell k key Broken) ->
   exists q' st, (q < q')%nat /\ nth_error (heap (ct (gl s))) q' = Some (Cell k key st).
 Proof. exact broken_only_by_rerequest. Qed.
 
 (* ---------- do_noop ---------- *)
-(* setDelayedValue for a key that is not pending (unknown, or already completed) leaves the whole
-   container - maps and promises - unchanged and returns normally *)
-Theorem do_noop : forall ns progs s t c l g' l' es mv k key v,
-  R ns progs s -> nth_error (thr s) t = Some l -> at_ l = P_lock (SetValue mv k key v) ->
-  tstep t c (gl s) l = Some (g', l', es) -> ahas key (pend (ct (gl s)) k) = false ->
-  ct g' = ct (gl s) /\ at_ l' = P_unlock 0 false.
+(* setDelayedValue (either overload) for a key that is not pending leaves the whole container unchanged,
+   makes no copy, and returns normally *)
+Theorem do_noop : forall t c g l g' l' es mv k key v,
+  at_ l = P_lock (SetValue mv k key v) -> tstep t c g l = Some (g', l', es) -> ahas key (pend (ct g) k) = false ->
+  ct g' = ct g /\ at_ l' = P_unlock (ORet 0).
 Proof. exact set_noop. Qed.
 
 (* ---------- do_queries ---------- *)
 (* abs c k key = (key in pending map, key in used map): Unknown (f,f), Pending (t,f), Completed (f,t).
-   Every critical section moves every key as the sequential life-cycle specification abs_step says
-   (getFuture: -> Pending; set: Pending -> Completed, else nothing; fulfil-all: Pending -> Completed for
-   all keys; finishedWithValue: Completed -> Unknown), and the queries return
-   isRecognized = Pending or Completed, isCompleted = Completed (abs_ret). *)
-Theorem do_queries : forall ns progs s t c l g' l' es o,
-  R ns progs s -> nth_error (thr s) t = Some l -> at_ l = P_lock o ->
-  tstep t c (gl s) l = Some (g', l', es) ->
-  (forall k key, abs (ct g') k key = abs_step o k key (abs (ct (gl s)) k key)) /\
-  at_ l' = P_unlock (abs_ret o (ct (gl s))) false.
-Proof. exact queries. Qed.
+   The sequential body of every method moves every key as the life-cycle specification abs_step says and
+   returns abs_ret (isRecognized = Pending or Completed, isCompleted = Completed) ... *)
+Theorem do_queries : forall o c c' rv flt k key, CInv c -> apply o c = (c', rv, flt) ->
+  abs c' k key = abs_step o k key (abs c k key) /\ rv = abs_ret o c.
+Proof. exact apply_abs. Qed.
+(* ... and every critical section that completes IS its sequential body, applied to the container it found,
+   returning the value the call returns (do_fulfill_completes is the third case) *)
+Theorem do_section_lock : forall ns pl progs s t c l g' l' es o rv,
+  R ns pl progs s -> torn (gl s) = false -> nth_error (thr s) t = Some l -> at_ l = P_lock o ->
+  tstep t c (gl s) l = Some (g', l', es) -> at_ l' = P_unlock (ORet rv) ->
+  CInv (ct (gl s)) /\ apply o (ct (gl s)) = (ct g', rv, false) /\ hist g' = hist (gl s) ++ [(t, o, ORet rv)].
+Proof. exact section_lock. Qed.
+Theorem do_section_copy : forall ns pl progs s t c l g' l' es o,
+  R ns pl progs s -> torn (gl s) = false -> nth_error (thr s) t = Some l -> at_ l = P_call o ->
+  throws (gl s) = false -> tstep t c (gl s) l = Some (g', l', es) ->
+  exists rv, at_ l' = P_unlock (ORet rv) /\ CInv (ct (gl s)) /\ apply o (ct (gl s)) = (ct g', rv, false) /\
+             hist g' = hist (gl s) ++ [(t, o, ORet rv)].
+Proof. exact section_copy. Qed.
 
-(* the value computed in the critical section is the one the call returns (K_RET event of the unlock step) *)
-Theorem do_query_returns : forall t c g l g' l' es rv flt,
-  tstep t c g l = Some (g', l', es) -> at_ l = P_unlock rv flt ->
-  In (E K_RET 0 rv) es /\ at_ l' = Idle /\ ct g' = ct g /\ mtx g' = None.
-Proof. exact ret_value. Qed.
-
-(* Pending <-> the key has an unsatisfied promise; Completed -> the used map holds a satisfied one *)
 Theorem do_life_pending : forall c k key, CInv c ->
   (fst (abs c k key) = true <-> exists q, nth_error (heap c) q = Some (Cell k key Unset)).
 Proof. exact abs_pending. Qed.
 Theorem do_life_completed : forall c k key, CInv c -> snd (abs c k key) = true ->
   exists q v, afind key (used c k) = Some q /\ nth_error (heap c) q = Some (Cell k key (SetV v)).
 Proof. exact abs_completed. Qed.
-(* the fourth combination (t,t) needs two requests of the key *)
-Theorem do_life_both_only_rerequested : forall ns progs s k key, R ns progs s -> abs (ct (gl s)) k key = (true, true) ->
-  exists q q' st st', q <> q' /\ nth_error (heap (ct (gl s))) q = Some (Cell k key st) /\
-                      nth_error (heap (ct (gl s))) q' = Some (Cell k key st').
+Theorem do_life_both_only_rerequested : forall c k key, CInv c -> abs c k key = (true, true) ->
+  exists q q' st st', q <> q' /\ nth_error (heap c) q = Some (Cell k key st) /\
+                      nth_error (heap c) q' = Some (Cell k key st').
 Proof. exact both_only_rerequested. Qed.
 
 (* ---------- do_linearizable / atomic sections ---------- *)
-(* the container is what the sequential bodies give when run one after the other in the order of the
-   lock steps, and every logged return value is the one the sequential body returns *)
-Theorem do_linearizable : forall ns progs s, R ns progs s -> replay (hist (gl s)) cont0 = Some (ct (gl s)).
+(* whenever no fulfillAllPromises is in progress, the container is what the sequential bodies of the
+   completed sections give, run one after the other in the order in which they ended (sections ended by a
+   throwing copy: no effect), every logged return value being the one the sequential body returns *)
+Theorem do_linearizable : forall ns pl progs s, R ns pl progs s -> torn (gl s) = false -> calm s ->
+  replay (hist (gl s)) cont0 = Some (ct (gl s)).
 Proof. exact linearizable. Qed.
-(* the history entry of a call is appended by its lock step - between its invoke and its return - with
-   the value it returns; no other step touches the history *)
 Theorem do_lin_point : forall t c g l g' l' es, tstep t c g l = Some (g', l', es) ->
   match at_ l with
-  | P_lock o => exists rv flt, hist g' = hist g ++ [(t, o, rv)] /\ at_ l' = P_unlock rv flt /\
-                               mtx g = None /\ mtx g' = Some t
-  | _ => hist g' = hist g
-  end.
+  | P_lock o => began g' = began g ++ [(t, o)] /\ mtx g = None /\ mtx g' = Some t
+  | _ => began g' = began g
+  end /\
+  (hist g' = hist g \/
+   exists o out, hist g' = hist g ++ [(t, o, out)] /\ at_ l' = P_unlock out /\ (is_lock (at_ l) = true \/ holds (at_ l) = true)).
 Proof. exact lin_point. Qed.
-(* the container changes only in lock steps, i.e. only while the mutex is being acquired by the caller *)
+(* the container changes only in steps of a thread that is acquiring or owns promiseLock *)
 Theorem do_atomic_sections : forall t c g l g' l' es,
-  tstep t c g l = Some (g', l', es) -> is_lock (at_ l) = false -> ct g' = ct g.
+  tstep t c g l = Some (g', l', es) -> is_lock (at_ l) = false -> holds (at_ l) = false -> ct g' = ct g.
 Proof. exact ct_changes_only_in_cs. Qed.
-Theorem do_mutual_exclusion : forall ns progs s u u',
-  R ns progs s -> is_unlock (pcof (thr s) u) = true -> is_unlock (pcof (thr s) u') = true -> u = u'.
+Theorem do_mutual_exclusion : forall ns pl progs s u u',
+  R ns pl progs s -> holds (pcof (thr s) u) = true -> holds (pcof (thr s) u') = true -> u = u'.
 Proof. exact mutual_exclusion. Qed.
-Theorem do_section_owner : forall ns progs s u, R ns progs s ->
-  (is_unlock (pcof (thr s) u) = true <-> mtx (gl s) = Some u).
+Theorem do_section_owner : forall ns pl progs s u, R ns pl progs s ->
+  (holds (pcof (thr s) u) = true <-> mtx (gl s) = Some u).
 Proof. exact in_section_owns. Qed.
 
 (* ---------- do_never_hangs ---------- *)
-(* after the destruction no promise at all is Unset, and every future a client holds is ready *)
-Theorem do_never_hangs : forall ns progs s h', R ns progs s -> destroy (ct (gl s)) = Some h' ->
+Theorem do_never_hangs : forall ns pl progs s h', R ns pl progs s -> torn (gl s) = false -> calm s ->
+  destroy (ct (gl s)) = Some h' ->
   (forall q x, nth_error h' q = Some x -> cst x <> Unset) /\
   (forall u l i p, nth_error (thr s) u = Some l -> nth_error (slots l) i = Some (Some p) ->
      fut_ready h' (Some p) = 1).
 Proof. exact never_hangs. Qed.
 
-(* no method of the class can block for ever: the only blocking point is promiseLock, its owner can
-   always take its next step (the unlock), a state where nothing moves has every program finished,
-   and every run takes at most mu(s) = 3 steps per outstanding call *)
-Theorem do_mutex_holder_moves : forall ns progs s a c, R ns progs s -> mtx (gl s) = Some a -> enabled glob loc tstep s a c.
+(* no method can block for ever (no proviso): the only blocking point is promiseLock, its owner can always
+   take its next step - also in the middle of a copy loop and on the exception paths -, a state where
+   nothing moves has every program finished, and every run makes at most mu moves
+   (2N+6 per call, N = number of getFuture calls in the programs: the bound on the copy loops) *)
+Theorem do_mutex_holder_moves : forall ns pl progs s a c, R ns pl progs s -> mtx (gl s) = Some a -> enabled glob loc tstep s a c.
 Proof. exact holder_enabled. Qed.
-Theorem do_blocks_only_on_mutex : forall ns progs s t c l,
-  R ns progs s -> nth_error (thr s) t = Some l -> fin l = false -> tstep t c (gl s) l = None ->
+Theorem do_blocks_only_on_mutex : forall ns pl progs s t c l,
+  R ns pl progs s -> nth_error (thr s) t = Some l -> fin l = false -> tstep t c (gl s) l = None ->
   exists o a, at_ l = P_lock o /\ mtx (gl s) = Some a /\ a <> t /\ enabled glob loc tstep s a 0.
 Proof. exact blocks_only_on_mutex. Qed.
-Theorem do_deadlock_free : forall ns progs s, R ns progs s -> quiescent glob loc tstep s -> all_fin glob loc fin s = true.
+Theorem do_deadlock_free : forall ns pl progs s, R ns pl progs s -> quiescent glob loc tstep s -> all_fin glob loc fin s = true.
 Proof. exact quiescent_all_fin. Qed.
-Theorem do_bounded_work : forall ns progs s sc, R ns progs s -> (moves glob loc tstep s sc <= mu s)%nat.
+Theorem do_bounded_work : forall ns pl progs s sc, R ns pl progs s -> (moves glob loc tstep s sc <= mu (getfs progs) s)%nat.
 Proof. exact bounded_work. Qed.
 
 (* ---------- non-vacuity: the hypotheses are met by concrete reachable states ---------- *)
-(* thread 0 requests int key 1 (slot 0) and string key 1 (slot 1); thread 1 sets int key 1 twice and fulfils *)
-Definition ex_progs : list (list op) :=
-  [[GetFuture false 1 0; GetFuture true 1 1; FutGet 0];
-   [SetValue false false 1 111; SetValue true false 1 112; FulfillAll 5113]].
 Definition t0 (n : nat) : list (nat * nat) := repeat (0, 0)%nat n.
 Definition t1 (n : nat) : list (nat * nat) := repeat (1, 0)%nat n.
-(* both futures requested; thread 1 has invoked its first set and waits for the lock *)
-Definition ex_s1 := run glob loc tstep (init 2 ex_progs) (t0 6 ++ t1 1).
+Definition runx ns pl progs sc := run glob loc tstep (init ns pl progs) sc.
 
-Example ex_set_finds_pending :
-  exists l, nth_error (thr ex_s1) 1 = Some l /\ at_ l = P_lock (SetValue false false 1 111) /\
-            afind 1 (pend (ct (gl ex_s1)) false) = Some 0%nat /\ exists r, tstep 1 0 (gl ex_s1) l = Some r.
+(* thread 0 requests int key 1 (slot 0) and string key 1 (slot 1); thread 1 sets int key 1 (copy overload,
+   the copy with index 0 throws), sets it again (copy 1 succeeds), sets it a third time, then fulfils *)
+Definition ex_progs : list (list op) :=
+  [[GetFuture false 1 0; GetFuture true 1 1; FutGet 0];
+   [SetValue false false 1 111; SetValue false false 1 112; SetValue true false 1 113; FulfillAll 5113]].
+
+(* thread 1 waits at its first copy, which will throw: hypotheses of do_set_exn_keeps_pending *)
+Definition ex_s1 := runx 2 [0] ex_progs (t0 6 ++ t1 2).
+Example ex_copy_will_throw :
+  exists l, nth_error (thr ex_s1) 1 = Some l /\ at_ l = P_call (SetValue false false 1 111) /\
+            throws (gl ex_s1) = true /\ torn (gl ex_s1) = false /\ mtx (gl ex_s1) = Some 1%nat /\
+            exists r, tstep 1 0 (gl ex_s1) l = Some r.
 Proof. vm_compute. eexists; repeat split. eexists; reflexivity. Qed.
-
-(* after the first set: the second set finds the key completed (do_noop's hypothesis) *)
-Definition ex_s2 := run glob loc tstep ex_s1 (t1 3).
-Example ex_second_set_is_noop :
-  exists l, nth_error (thr ex_s2) 1 = Some l /\ at_ l = P_lock (SetValue true false 1 112) /\
-            ahas 1 (pend (ct (gl ex_s2)) false) = false /\ abs (ct (gl ex_s2)) false 1 = (false, true) /\
-            nth_error (heap (ct (gl ex_s2))) 0 = Some (Cell false 1 (SetV 111)).
+(* after the throw and the unlock: key still pending, mutex free; the second set is at its copy, which succeeds *)
+Definition ex_s2 := runx 2 [0] ex_progs (t0 6 ++ t1 6).
+Example ex_still_pending_then_set :
+  exists l, nth_error (thr ex_s2) 1 = Some l /\ at_ l = P_call (SetValue false false 1 112) /\
+            throws (gl ex_s2) = false /\ afind 1 (pend (ct (gl ex_s2)) false) = Some 0%nat /\
+            abs (ct (gl ex_s2)) false 1 = (true, false) /\ faulted (gl ex_s2) = false /\
+            length (hist (gl ex_s2)) = 3%nat.
 Proof. vm_compute. eexists; repeat split. Qed.
-
-(* thread 1 inside the critical section of fulfillAllPromises: it owns the lock; the client already sees 111 *)
-Definition ex_s3 := run glob loc tstep ex_s2 (t1 4).
-Example ex_in_section :
-  is_unlock (pcof (thr ex_s3) 1) = true /\ mtx (gl ex_s3) = Some 1%nat /\
-  nth_error (heap (ct (gl ex_s3))) 1 = Some (Cell true 1 (SetV 5113)) /\
-  fut_get (heap (ct (gl ex_s3))) (Some 0%nat) = 111 /\ length (hist (gl ex_s3)) = 5%nat.
+(* the third set (move overload) finds the key completed: do_noop *)
+Definition ex_s3 := runx 2 [0] ex_progs (t0 6 ++ t1 9).
+Example ex_third_set_is_noop :
+  exists l, nth_error (thr ex_s3) 1 = Some l /\ at_ l = P_lock (SetValue true false 1 113) /\
+            ahas 1 (pend (ct (gl ex_s3)) false) = false /\ abs (ct (gl ex_s3)) false 1 = (false, true) /\
+            nth_error (heap (ct (gl ex_s3))) 0 = Some (Cell false 1 (SetV 112)).
+Proof. vm_compute. eexists; repeat split. Qed.
+(* inside fulfillAllPromises, at the copy for the string key: do_fulfill_step / do_fulfill_completes *)
+Definition ex_s4 := runx 2 [0] ex_progs (t0 6 ++ t1 13).
+Example ex_in_fulfill :
+  exists l c0, nth_error (thr ex_s4) 1 = Some l /\ at_ l = P_ful 5113 true 1 1%nat [] 0 c0 /\
+               throws (gl ex_s4) = false /\ mtx (gl ex_s4) = Some 1%nat /\
+               fut_get (heap (ct (gl ex_s4))) (Some 0%nat) = 112 /\ fut_get (heap (ct (gl ex_s4))) (Some 1%nat) = C_NOTREADY.
+Proof. vm_compute. eexists _, _; repeat split. Qed.
+Example ex_fulfill_done :
+  let s := runx 2 [0] ex_progs (t0 6 ++ t1 14) in
+  pcof (thr s) 1 = P_unlock (ORet 0) /\ fut_get (heap (ct (gl s))) (Some 1%nat) = 5113 /\
+  pend (ct (gl s)) true = [] /\ torn (gl s) = false.
 Proof. vm_compute. repeat split. Qed.
 
-(* destruction with an outstanding future: requested once, still Unset, gets 0 *)
-Definition ex_s4 := run glob loc tstep (init 1 [[GetFuture true 7 0]]) (t0 3).
+(* a fulfillAllPromises whose FIRST copy throws: nothing happened, not torn *)
+Example ex_fulfill_first_copy_throws :
+  let s := runx 1 [0] [[GetFuture false 1 0; GetFuture true 2 0; FulfillAll 9]] (t0 10) in
+  torn (gl s) = false /\ faulted (gl s) = false /\ calls (gl s) = 1 /\ mtx (gl s) = None /\
+  length (pend (ct (gl s)) false) = 1%nat /\ length (pend (ct (gl s)) true) = 1%nat /\
+  destroy (ct (gl s)) = Some [Cell false 1 (SetV 0); Cell true 2 (SetV 0)].
+Proof. vm_compute. repeat split. Qed.
+
+(* destruction with an outstanding future: requested once, still Unset, gets 0; calm and not torn *)
+Definition ex_s5 := runx 1 [] [[GetFuture true 7 0]] (t0 3).
 Example ex_default_at_destruction :
-  nth_error (heap (ct (gl ex_s4))) 0 = Some (Cell true 7 Unset) /\
-  requested_once (heap (ct (gl ex_s4))) 0 true 7 /\
-  destroy (ct (gl ex_s4)) = Some [Cell true 7 (SetV 0)] /\
-  all_fin glob loc fin ex_s4 = true.
+  nth_error (heap (ct (gl ex_s5))) 0 = Some (Cell true 7 Unset) /\
+  requested_once (heap (ct (gl ex_s5))) 0 true 7 /\
+  destroy (ct (gl ex_s5)) = Some [Cell true 7 (SetV 0)] /\
+  all_fin glob loc fin ex_s5 = true /\ torn (gl ex_s5) = false /\ calm ex_s5.
 Proof.
-  vm_compute. repeat split. intros q' st' H. destruct q' as [|q']; [reflexivity|]. destruct q'; discriminate.
+  vm_compute. repeat split.
+  - intros q' st' H. destruct q' as [|q']; [reflexivity|]. destruct q'; discriminate.
+  - intros u. destruct u as [|u]; [reflexivity|]. destruct u; reflexivity.
 Qed.
 
 (* re-request of a pending key breaks the first promise (modelled; outside "requested once") *)
 Example ex_rerequest_breaks :
-  let s := run glob loc tstep (init 2 [[GetFuture false 3 0; GetFuture false 3 1]]) (t0 6) in
+  let s := runx 2 [] [[GetFuture false 3 0; GetFuture false 3 1]] (t0 6) in
   nth_error (heap (ct (gl s))) 0 = Some (Cell false 3 Broken) /\
   nth_error (heap (ct (gl s))) 1 = Some (Cell false 3 Unset) /\ faulted (gl s) = false.
 Proof. vm_compute. repeat split. Qed.
 
-(* a thread blocked on promiseLock: the situation do_blocks_only_on_mutex speaks about *)
+(* a thread blocked on promiseLock while another is in the middle of its copy loop *)
 Example ex_blocked_on_mutex :
-  let s := run glob loc tstep (init 1 [[FulfillAll 5]; [IsCompleted false 0]]) [(0,0);(0,0);(1,0)]%nat in
-  exists l, nth_error (thr s) 1 = Some l /\ fin l = false /\ tstep 1 0 (gl s) l = None /\ mtx (gl s) = Some 0%nat.
+  let s := runx 1 [] [[GetFuture false 1 0; FulfillAll 5]; [IsCompleted false 0]] [(0,0);(0,0);(0,0);(0,0);(0,0);(1,0)]%nat in
+  exists l, nth_error (thr s) 1 = Some l /\ fin l = false /\ tstep 1 0 (gl s) l = None /\ mtx (gl s) = Some 0%nat /\
+            is_ful (pcof (thr s) 0) = true.
 Proof. vm_compute. eexists; repeat split. Qed.
